@@ -34,8 +34,8 @@ class Channel {
 
     bool operator >> (T &out) {
         if (queue_.empty()) {   //! 如果队列里没有，则等待
-            token_.push(sch_.getToken());
             do {
+                token_.push(sch_.getToken());   //! 每次等待前都要登记，否则被唤醒后再次等待就无人唤醒了
                 sch_.wait();
                 if (sch_.isCanceled())
                     return false;
@@ -48,7 +48,7 @@ class Channel {
     }
 
     Channel& operator << (const T &value) {
-        if (queue_.empty() && !token_.empty()) {
+        if (!token_.empty()) {  //! 每放入一个数据就唤醒一个等待者
             auto t = token_.front();
             token_.pop();
             sch_.resume(t);
